@@ -9,7 +9,7 @@
    describe the same document, for every value.  The colouring interpreters
    and the options are compared with these by the harness. *)
 From Coq Require Import NArith List Bool Permutation String.
-From GJ Require Import Spec.Json Model.Enc Model.EncIndent Proofs.EncP Proofs.ParseP Proofs.ParseWsP Proofs.EncIndentP Proofs.IndentRefP Gen.UtilShape.
+From GJ Require Import Spec.Json Model.Enc Model.EncIndent Model.Compact Proofs.EncP Proofs.ParseP Proofs.ParseWsP Proofs.EncIndentP Proofs.IndentRefP Proofs.CompactP Proofs.ParseShapeP Proofs.UtilSpecP Gen.UtilShape.
 Import ListNotations.
 Open Scope string_scope.
 Open Scope list_scope.
@@ -60,6 +60,16 @@ Theorem C13_marshal_indent_is_indent_of_marshal : forall pre ind v, wfp (strip v
   match parse_json (marshal v) with Some (ts, _) => Some (render_indent pre ind 0 None ts) | None => None end.
 Proof. exact marshal_indent_is_indent_of_marshal. Qed.
 Print Assumptions C13_marshal_indent_is_indent_of_marshal.
+
+(* the same against the library's own Indent (Model/Compact.indent_run, the model of
+   internal/encoder/indent.go that C18 proves equal to encoding/json's Indent on every input):
+   Indent(Marshal(v), p, i) succeeds and appends exactly MarshalIndent(v, p, i), for every value nested
+   no deeper than the limit Indent enforces (10000, read from the source) *)
+Theorem C13_marshal_indent_is_the_librarys_indent_of_marshal : forall pre ind v,
+  wfp (strip v) = true -> scan clim 0 (toks v) = Some 0%nat ->
+  indent_run pre ind (marshal v) = COk (marshal_indent pre ind v).
+Proof. exact marshal_indent_is_indent_run. Qed.
+Print Assumptions C13_marshal_indent_is_the_librarys_indent_of_marshal.
 
 Example C13_indent_example :
   let v := JObj [([97], false, JArr [JLeaf (TNum [49]); JObj []; JArr []]); ([98], true, JLeaf TTrue); ([99], false, JObj [([100], false, JLeaf TNull)])] in
